@@ -319,6 +319,8 @@ func (w *world) oracleC08() {
 					buckets  []uint64
 					min, max float64
 					has      bool
+					exp      []point // exponential-histogram delta points (rescaled when compared)
+					zero     uint64
 				}
 				fold := map[string]*agg{}
 				for _, c := range dColls {
@@ -333,6 +335,10 @@ func (w *world) oracleC08() {
 						}
 						a.sum += p.sum
 						a.count += p.count
+						if p.kind == "exphist" {
+							a.exp = append(a.exp, p)
+							a.zero += p.zero
+						}
 						if len(p.buckets) > 0 {
 							if a.buckets == nil {
 								a.buckets = make([]uint64, len(p.buckets))
@@ -393,6 +399,9 @@ func (w *world) oracleC08() {
 					}
 					if p.sum != a.sum || p.count != a.count {
 						w.r.Violate(prop, "delta-cumulative-mismatch", "delta-cumulative-mismatch/"+p.kind, "%s set [%s]: cumulative %v (count %d) != running total of deltas %v (count %d)", where, k, p.sum, p.count, a.sum, a.count)
+					}
+					if p.kind == "exphist" {
+						w.checkExpo(prop, where, k, p, a.exp, a.zero)
 					}
 					if p.kind == "hist" {
 						for i := range p.buckets {
@@ -768,6 +777,58 @@ func (w *world) oracleC12() {
 					w.r.Violate(prop, "late-identity", "late-identity", "%s: measurement bit=%d kept its own set [%s] although %d other distinct sets were already present (limit %d)", st.name, o.bit, own, len(defOthers), L)
 				}
 			}
+		}
+	}
+}
+
+// checkExpo compares a cumulative exponential-histogram point with the fold of the delta points
+// reported so far, after rescaling every side to the coarsest scale involved (an index i at scale s is
+// index i>>d at scale s-d), and checks the point's internal consistency.
+func (w *world) checkExpo(prop, where, key string, cum point, deltas []point, zero uint64) {
+	minScale := cum.scale
+	for _, d := range deltas {
+		if d.count > d.zero && d.scale < minScale {
+			minScale = d.scale
+		}
+	}
+	rescale := func(p point) map[int32]uint64 {
+		out := map[int32]uint64{}
+		sh := uint(p.scale - minScale)
+		for i, c := range p.pos {
+			if c != 0 {
+				out[(p.posOff+int32(i))>>sh] += c
+			}
+		}
+		return out
+	}
+	var tot uint64
+	for _, c := range cum.pos {
+		tot += c
+	}
+	if tot+cum.zero+cum.negN != cum.count {
+		w.r.Violate(prop, "histogram-inconsistent", "histogram-inconsistent/exponential", "%s set [%s]: zero count %d + bucket counts %d != count %d (scale %d offset %d counts %v)", where, key, cum.zero, tot, cum.count, cum.scale, cum.posOff, cum.pos)
+	}
+	if cum.zero != zero {
+		w.r.Violate(prop, "delta-cumulative-mismatch", "delta-cumulative-mismatch/expo-zero", "%s set [%s]: cumulative zero count %d, deltas add up to %d", where, key, cum.zero, zero)
+	}
+	want := map[int32]uint64{}
+	for _, d := range deltas {
+		for i, c := range rescale(d) {
+			want[i] += c
+		}
+	}
+	got := rescale(cum)
+	idx := map[int32]bool{}
+	for i := range want {
+		idx[i] = true
+	}
+	for i := range got {
+		idx[i] = true
+	}
+	for i := range idx {
+		if got[i] != want[i] {
+			w.r.Violate(prop, "delta-cumulative-mismatch", "delta-cumulative-mismatch/expo-bucket", "%s set [%s]: at scale %d bucket %d the cumulative point holds %d, the deltas add up to %d (cumulative scale %d offset %d counts %v)", where, key, minScale, i, got[i], want[i], cum.scale, cum.posOff, cum.pos)
+			return
 		}
 	}
 }
